@@ -50,7 +50,16 @@ pub fn spans(bytes: &[u8], grammar: &[Field]) -> Option<Vec<Span>> {
             out.push(Span { name: f.name.clone(), kind: f.kind.clone(), off: p, width: f.width, len: 0 });
             p += f.width;
         } else {
-            let l = rd(bytes, p, f.width)? as usize;
+            // "vblob": the prefix is a one-byte vint64 (2 * length + 1)
+            let l = if f.kind == "vblob" {
+                let x = rd(bytes, p, 1)?;
+                if x & 1 != 1 {
+                    return None;
+                }
+                (x >> 1) as usize
+            } else {
+                rd(bytes, p, f.width)? as usize
+            };
             if p + f.width + l > bytes.len() {
                 return None;
             }
@@ -79,6 +88,14 @@ pub fn apply(bytes: &[u8], sp: &[Span], mu: &Mutation, chunk: usize) -> Option<V
             b.extend([7u8, 1, 2, 3]); // vint64(3), then three bytes
             return Some(b);
         }
+        if mu.m == "set-none" {
+            if v != 1 || s.name != "gkr.tag" {
+                return None;
+            }
+            b[s.off] = 0;
+            b.truncate(s.off + 1);
+            return Some(b);
+        }
         let nv = match mu.m.as_str() {
             "zero" => 0,
             "one" => 1,
@@ -97,6 +114,9 @@ pub fn apply(bytes: &[u8], sp: &[Span], mu: &Mutation, chunk: usize) -> Option<V
     }
     let start = s.off + s.width;
     let end = start + s.len;
+    let vint = s.kind == "vblob";
+    let maxv = if vint { 127 } else { maxv };
+    let wr = |b: &mut [u8], off: usize, w: usize, v: u64| if vint { b[off] = ((v << 1) | 1) as u8 } else { wr(b, off, w, v) };
     match mu.m.as_str() {
         "shorten" => {
             if s.len == 0 {
